@@ -85,6 +85,7 @@ const (
 
 	magicDemon      = 0xDEADBEEF
 	magicThirdParty = 0x41424344 // registered as a service agent type in S5 only
+	magicUpperCase  = 0x4d59c0de // registered in S5 with the spelling "0x4D59C0DE"
 )
 
 func (r Ref) id(sender uint32) uint32 {
